@@ -272,10 +272,19 @@ func HarnessC05_DateTimeDecode() {
 	vfReach("end")
 }
 
-// DATETIME / DATETIMEN, client -> server
+// DATETIME / DATETIMEN, client -> server (thorough: every other century, the
+// day-number arithmetic is shared with DATE and BIGDATETIME which take them all)
 func HarnessC05_DateTimeEncode() {
 	vfLoopBound(200)
-	y, m, d := c05Date()
+	var y, m, d int
+	if vfThorough() {
+		y = (vfPick("centuryhi", 1, 9)*10+[]int{0, 3, 5, 7, 9}[vfPick("centurylo", 0, 4)])*100 + vfInt("yy", 0, 99)
+		m = vfPick("month", 1, 12)
+		d = vfInt("day", 1, 31)
+		vfAssume(d <= c05DaysIn(y, m))
+	} else {
+		y, m, d = c05Date()
+	}
 	vfAssume(y >= 1753)
 	h, mi, s, us := vfInt("h", 0, 23), vfInt("m", 0, 59), vfInt("s", 0, 59), vfInt("us", 0, 999999)
 	tm := time.Date(y, time.Month(m), d, h, mi, s, us*1000+vfInt("subus", 0, 999), time.UTC)
